@@ -194,15 +194,15 @@ PROPS['C17'] = dict(
     engine='A', technique='symbolic-scalar execution of the real integrate<n> over an exact Gauss-Legendre stub (algebraic nodes as constrained symbols) + QF_NRA obligations; replay in an exact tower of quadratic extensions of Q',
     harnesses=[dict(name='C17_quadrature_large', src='C17_quadrature.cpp', pre_includes=['symt/stub'], chunk=1,
                     defs=dict(quick=['-DFIXED_GRID', '-DLARGE=17'], thorough=['-DFIXED_GRID', '-DLARGE=20', '-DNSAMPLE=12']),
-                    functions=['integrate<n> on sampled window pairs of a 17-point (thorough: 20-point) fixed rational grid for (n,o1,o2,d) in {(2,1,1,1),(3,2,1,2),(2,0,3,0)}; (4,3,3,1), (4,5,2,0), (5,4,4,1), (5,6,3,0), (5,2,5,2) on 2..3-point grids']),
+                    functions=['integrate<n> on sampled window pairs of a 17-point (thorough: 20-point) fixed rational grid for (n,o1,o2,d) in {(2,1,1,1),(3,2,1,2),(2,0,3,0)}; (4,3,3,1), (4,5,2,0), (5,4,4,1), (5,6,3,0), (5,2,5,2) on 2..3-point grids; rules with 6, 8, 11, 13 points (interpolation model of the exactness contract): (6,5,5,1), (8,7,7,1), (11,10,11,0), (11,12,9,0), (13,12,12,1)']),
                dict(name='C17_quadrature', src='C17_quadrature.cpp', pre_includes=['symt/stub'],
                     defs=dict(quick=['-DMAXQ=4', '-DMAXO=2', '-DMAXN=4'], thorough=['-DMAXQ=5', '-DMAXO=3', '-DMAXN=4']),
                     functions=['integration::integrate<n>', 'Support::calcIntersection', 'Support::intervalIndexFromAbsolute', 'Support::absoluteFromRelative', 'Support::at', 'Grid::at',
                                'internal::evaluateInterval', 'BilinearForm::evaluate (weight as X-polynomial operator)'])],
-    bounds=dict(quick='quadrature sizes n = 1..4, spline orders {0..2}^2, polynomial weights of degree 0..2 with symbolic coefficients, every (n, o1, o2, d) with 2n-1 >= o1+o2+d; every ordered window pair on grids of 2..4 symbolic points; plus sampled window pairs of a 17-point FIXED rational grid for (n,o1,o2,d) in {(2,1,1,1),(3,2,1,2),(2,0,3,0)} and (4,3,3,1), (4,5,2,0), (5,4,4,1), (5,6,3,0), (5,2,5,2) on 2..3-point grids',
+    bounds=dict(quick='quadrature sizes n = 1..4, spline orders {0..2}^2, polynomial weights of degree 0..2 with symbolic coefficients, every (n, o1, o2, d) with 2n-1 >= o1+o2+d; every ordered window pair on grids of 2..4 symbolic points; plus sampled window pairs of a 17-point FIXED rational grid for (n,o1,o2,d) in {(2,1,1,1),(3,2,1,2),(2,0,3,0)} and (4,3,3,1), (4,5,2,0), (5,4,4,1), (5,6,3,0), (5,2,5,2), and with 6..13-point rules (6,5,5,1), (8,7,7,1), (11,10,11,0), (11,12,9,0), (13,12,12,1) on 2..3-point grids',
                 thorough='n = 1..5, orders {0..3}^2'),
     outside='boost\'s rounded double node/weight tables and floating-point rounding ("up to rounding" is read as exact equality in exact arithmetic); n > 5; non-polynomial weights; sizes beyond the exactness bound (no claim is made there)',
-    stubs=['symt/stub/boost/math/quadrature/gauss.hpp + symt/gauss_nodes.h: exact n-point Gauss-Legendre rule, nodes/weights as algebraic numbers (n=2: s^2=1/3; n=3: s^2=3/5; n=4,5: nested radicals), contract = exactness to degree 2n-1'],
+    stubs=['symt/stub/boost/math/quadrature/gauss.hpp + symt/gauss_nodes.h: exact n-point Gauss-Legendre rule, nodes/weights as algebraic numbers (n=2: s^2=1/3; n=3: s^2=3/5; n=4,5: nested radicals), contract = exactness to degree 2n-1', 'for n > 5 the stub integrates the degree-(2n-1) interpolant through 2n rational points: equal to the Gauss rule for every integrand inside the exactness contract'],
     assumptions=['grid points strictly increasing reals', 'gauss<T,N>::integrate implements the exact N-point Gauss-Legendre rule', 'exact real arithmetic'],
     trusted=A_TRUST + ['the Gauss-Legendre node/weight formulas in symt/gauss_nodes.h'],
     level_text='Bounded symbolic model checking (exact-arithmetic reading): the real integrate<n> is run on symbolic splines with the library\'s integrand lambda evaluated at the exact Gauss nodes; the result must equal both the harness\'s exact integral of f*m1*m2 over the common intervals and the real BilinearForm with f as an operator, whenever 2n-1 >= order1+order2+d.',
